@@ -105,9 +105,16 @@ def _int_branch(reader) -> str | None:
     for c in ints:
         text = unparse(c.args[0])
         conds = []
+        from ..astutil import norm_fact as _nf18
+
         for t, pol in guard_facts(fn, c):
             if text not in unparse(t):
                 continue
+            tt_, pol = _nf18(t, pol)  # `'.' not in x`:T == `'.' in x`:F ; `not p`:T == p:F
+            try:
+                t = ast.parse(tt_, mode="eval").body
+            except SyntaxError:
+                pass
             L = _pred_language(t, text)
             if L is None:
                 if "kind" in unparse(t) or "isinstance" in unparse(t):
@@ -133,20 +140,62 @@ def check_writer_forms(idx: Index, rep: Report) -> None:
     f = idx.func(AS, "ArgSpec._spec_parameter_type_str")
     arg = f.node.args.args[0].arg
     ms = [n for n in walk_local(f.node) if isinstance(n, ast.Match)]
-    if len(ms) != 1:
-        raise AnalysisError(f"{f.fq}: match over the value type not found")
     cases: dict[str, list[ast.stmt]] = {}
-    for c in ms[0].cases:
-        if isinstance(c.pattern, ast.MatchClass):
-            cases[unparse(c.pattern.cls)] = c.body
+    bool_consts: set[str] = set()
+    if len(ms) == 1:
+        for c in ms[0].cases:
+            if isinstance(c.pattern, ast.MatchClass):
+                cases[unparse(c.pattern.cls)] = c.body
+    else:
+        # any other dispatch on the type of the value (isinstance chains, early returns): one case per path
+        from ..paths import enum_paths
+
+        TYPES = ("bool", "str", "int", "float")
+        for pth in enum_paths(f.node):
+            if not pth.feasible() or pth.end != "return" or pth.value is None:
+                continue
+            pos, neg = None, set()
+            for t_, p_ in pth.nfacts():
+                m_ = re.fullmatch(rf"isinstance\({re.escape(arg)}, \(?([\w |,]+)\)?\)", t_)
+                if m_:
+                    alts = set(re.split(r" \| |, ", m_.group(1)))
+                    if p_:
+                        pos = alts if pos is None else pos & alts
+                    else:
+                        neg |= alts
+            if pos is None:
+                continue
+            ts = [t_ for t_ in TYPES if t_ in pos and t_ not in neg and not (t_ == "bool" and "int" in neg)]
+            if "int" in pos and "bool" not in neg and "bool" not in pos:
+                ts = ["bool"] + ts  # isinstance(x, int) also holds for bool
+            rv = ast.parse(pth.rvalue(), mode="eval").body
+            for t_ in ts:
+                if t_ == "bool" and isinstance(rv, ast.Constant) and isinstance(rv.value, str):
+                    bool_consts.add(rv.value)
+                    continue
+                cases.setdefault(t_, [ast.Return(value=rv)])
+        if bool_consts == {"true", "false"} and "bool" not in cases:
+            cases["bool"] = [ast.Return(value=ast.parse(f"str({arg}).lower()", mode="eval").body)]
+        if not cases:
+            raise AnalysisError(f"{f.fq}: dispatch over the value type not found")
     order = list(cases)
-    if order[:1] != ["bool"] and "bool" in order and order.index("bool") > order.index("int"):
+    if len(ms) == 1 and order[:1] != ["bool"] and "bool" in order and order.index("bool") > order.index("int"):
         r.fail("order", Finding("C18.R1", f.fq, "bool-after-int", "`case int()` precedes `case bool()`: True would be printed as `True`/`1` (bool is an int)", f.loc))
     reader = idx.func(AS, "_parse_parameter_value_element")
     rt = unparse(reader.node)
     # bool
     body = cases.get("bool")
-    if body and unparse(body[-1]) == f"return str({arg}).lower()" and "if span.text == 'true':\n                return True" in rt.replace("    " * 0, "") or (body and unparse(body[-1]) == f"return str({arg}).lower()" and "span.text == 'true'" in rt and "span.text == 'false'" in rt):
+    reader_bool = "span.text == 'true'" in rt and "span.text == 'false'" in rt
+    if not reader_bool and re.search(r"if ([\w.]+) in \('true', 'false'\):\s+return \1 == 'true'", rt):
+        reader_bool = True
+    if not reader_bool:
+        # a literal table {"true": True, "false": False} looked up with the identifier text
+        for nm_, v_ in idx.module(AS).assigns.items():
+            if isinstance(v_, ast.Dict) and nm_ in rt and all(isinstance(k_, ast.Constant) for k_ in v_.keys):
+                tab = {k_.value: (x_.value if isinstance(x_, ast.Constant) else None) for k_, x_ in zip(v_.keys, v_.values)}
+                if tab == {"true": True, "false": False} and re.search(rf"{nm_}\.get\(\w+(\.\w+)*, |{nm_}\[", rt):
+                    reader_bool = True
+    if body and unparse(body[-1]) == f"return str({arg}).lower()" and reader_bool:
         w = first_match_kind_witness(rules, rx.from_regex("true|false"), "IDENT")
         (r.ok("bool", f"{f.loc} bool -> true|false -> IDENT special-cased by the reader") if w is None else r.fail("bool", Finding("C18.R1", f.fq, "bool-form", f"`{w[0]}` is lexed as {w[1]}", f.loc)))
     else:
